@@ -378,6 +378,9 @@ func genVP(d int) func(g *vlib.G) {
 		N := vpMaxPoints(g, d)
 		L := ipow(side, d)
 		seeds := vlib.Pick(g, 2, 4)
+		if d == 4 {
+			seeds = vlib.Pick(g, 1, 2)
+		}
 		group := fmt.Sprintf("vp-d%d", d)
 		for n := 0; n <= N; n++ {
 			if g.Stopped() {
